@@ -1,113 +1,72 @@
-(* Proofs about model/CacheRbasex.v: the recorded findings as refutation
-   theorems (each by evaluation of the model on a concrete history), and the
-   facts about what a fresh process returns. *)
+(* model/CacheRbasex.v: the histories that used to fail (all fixed in /repo),
+   evaluated on the model of the fixed code. *)
 From Coq Require Import List Arith Bool Lia.
 From PA Require Import base.Npy model.CacheCommon model.CacheRbasex.
 Import ListNotations.
 
 (* a call of the standard kind: 9x9 image, origin 'center', rmax 'MIN',
-   order 2, even only, no weights; Rmax = 4, valid-mask content #1 *)
+   order 2, even only; Rmax = 4, valid-mask content #1005 (all valid) *)
 Definition mkcall (pid wid wver fail reg : nat) (fwd : bool) (geom : option (nat * nat * nat)) (bd : bdarg) : call :=
-  {| c_pid := pid; c_wid := wid; c_wver := wver; c_fail := fail; c_rmax := 4; c_vid := 1;
+  {| c_pid := pid; c_wid := wid; c_wver := wver; c_fail := fail; c_rmax := 4; c_vid := 1005;
      c_order := 2; c_odd := false; c_fwd := fwd; c_reg := reg; c_geom := geom; c_bd := bd;
      c_listing := [] |}.
 
-Definition same_geom : option (nat * nat * nat) := Some (5, 5, 0).   (* out='same' *)
-Definition full_geom : option (nat * nat * nat) := Some (6, 6, 0).   (* out='full' with another Rmax+1 *)
+Definition agrees (h : list op) (c : op) : bool := out_eqv (last_result h c) (fresh c).
 
-(* F5 (fixed in /repo, commit "rbasex image-basis cache is keyed by the output
-   geometry"): out='same' then out='full' now gives the fresh result *)
-Definition ibs_hist : list op := [Call (mkcall 1 0 0 0 0 false same_geom BNone)].
-Definition ibs_call : op := Call (mkcall 1 0 0 0 0 false full_geom BNone).
-Example ibs_keyed : out_eqv (last_result ibs_hist ibs_call) (fresh ibs_call) = true.
+(* 5c177c1: image basis keyed by its geometry *)
+Example ibs_keyed :
+  agrees [Call (mkcall 1 0 0 0 0 false (Some (5, 5, 0)) BNone)] (Call (mkcall 1 0 0 0 0 false (Some (6, 6, 0)) BNone)) = true.
 Proof. vm_compute. reflexivity. Qed.
 
-(* F6: weights are compared by identity: same object (wid 1), content changed
-   in place (version 100 -> 101) *)
-Definition w_hist : list op := [Call (mkcall 2 1 100 0 0 false None BNone)].
-Definition w_call : op := Call (mkcall 2 1 101 0 0 false None BNone).
-Theorem weights_identity_refuted :
-  res_code (last_result w_hist w_call) = 0 /\ res_code (fresh w_call) = 0 /\
-  out_eqv (last_result w_hist w_call) (fresh w_call) = false.
+(* a36fe34: weights compared by content (same object, content 100 -> 101) *)
+Example weights_by_content :
+  agrees [Call (mkcall 2 1 100 0 0 false None BNone)] (Call (mkcall 2 1 101 0 0 false None BNone)) = true.
+Proof. vm_compute. reflexivity. Qed.
+
+(* d536a3f: a call whose Distributions raises leaves the cache untouched *)
+Example failed_call_harmless :
+  res_code (last_result [] (Call (mkcall 3 0 0 2 0 false None BNone))) = exc_code EValue /\
+  agrees [Call (mkcall 3 0 0 2 0 false None BNone)] (Call (mkcall 1 0 0 0 0 false None BNone)) = true /\
+  agrees [Call (mkcall 1 1 100 0 0 false None BNone); Call (mkcall 3 1 100 1 0 false None BNone)]
+         (Call (mkcall 3 1 100 1 0 false None BNone)) = true.
 Proof. repeat split; vm_compute; reflexivity. Qed.
 
-(* F17: a call whose Distributions precalculation raises (rmax='foo') leaves a
-   half-built object: the next valid call raises AttributeError *)
-Definition fc_hist : list op := [Call (mkcall 3 0 0 2 0 false None BNone)].
-Definition fc_call : op := Call (mkcall 1 0 0 0 0 false None BNone).
-Theorem failed_call_poisons_refuted :
-  res_code (last_result fc_hist fc_call) = exc_code EAttr /\ res_code (fresh fc_call) = 0.
-Proof. split; vm_compute; reflexivity. Qed.
+(* d536a3f: an invalid reg raises every time *)
+Example invalid_reg_always_raises :
+  let h := [Call (mkcall 1 0 0 0 2 false None BNone); Call (mkcall 1 0 0 0 9 false None BNone)] in
+  res_code (last_result h (Call (mkcall 1 0 0 0 9 false None BNone))) = exc_code EValue /\
+  agrees h (Call (mkcall 1 0 0 0 9 false None BNone)) = true /\
+  agrees (h ++ [Call (mkcall 1 0 0 0 9 false None BNone)]) (Call (mkcall 1 0 0 0 2 false None BNone)) = true.
+Proof. repeat split; vm_compute; reflexivity. Qed.
 
-(* ... and cache_cleanup('all') is what repairs it *)
-Example failed_call_repaired_by_cleanup :
-  out_eqv (last_result (fc_hist ++ [Cleanup CAll]) fc_call) (fresh fc_call) = true.
-Proof. vm_compute. reflexivity. Qed.
-
-(* _tri_prm is assigned before the regularisation argument is checked: the
-   second call with reg='foo' silently returns the matrices of the call before *)
-Definition rg_hist : list op :=
-  [Call (mkcall 1 0 0 0 2 false None BNone); Call (mkcall 1 0 0 0 9 false None BNone)].
-Definition rg_call : op := Call (mkcall 1 0 0 0 9 false None BNone).
-Theorem invalid_reg_twice_refuted :
-  res_code (last_result rg_hist rg_call) = 0 /\ res_code (fresh rg_call) = exc_code EValue.
-Proof. split; vm_compute; reflexivity. Qed.
-
-(* _bs_prm is assigned before _load_bs: an empty file (EOFError is not caught)
-   makes the call raise, and after the file is removed the old basis — here of
-   (Rmax 4, order 2, odd) — serves the request (Rmax 4, order 4, even) *)
+(* d536a3f: a raising load (empty file: EOFError is still not caught) leaves
+   the cache untouched; after the file is removed the result is fresh *)
 Definition oddcall : call :=
-  {| c_pid := 5; c_wid := 0; c_wver := 0; c_fail := 0; c_rmax := 4; c_vid := 1;
+  {| c_pid := 5; c_wid := 0; c_wver := 0; c_fail := 0; c_rmax := 4; c_vid := 1005;
      c_order := 2; c_odd := true; c_fwd := false; c_reg := 0; c_geom := None; c_bd := BNone; c_listing := [] |}.
 Definition o4call (listing : list fkey) : call :=
-  {| c_pid := 6; c_wid := 0; c_wver := 0; c_fail := 0; c_rmax := 4; c_vid := 1;
+  {| c_pid := 6; c_wid := 0; c_wver := 0; c_fail := 0; c_rmax := 4; c_vid := 1005;
      c_order := 4; c_odd := false; c_fwd := false; c_reg := 0; c_geom := None; c_bd := BPath 1;
      c_listing := listing |}.
 Definition k44i : fkey := {| fk_rmax := 4; fk_order := 4; fk_odd := false; fk_inv := true |}.
-Definition fl_hist : list op :=
-  [Call oddcall; Seed 1 k44i (FBad PEOF); Call (o4call [k44i]); Remove 1 k44i].
-Definition fl_call : op := Call (o4call []).
-Theorem failed_load_poisons_refuted :
-  res_code (snd (step (run init [Call oddcall; Seed 1 k44i (FBad PEOF)]) (Call (o4call [k44i])))) = exc_code EEOF /\
-  res_code (last_result fl_hist fl_call) = 0 /\ res_code (fresh fl_call) = 0 /\
-  out_eqv (last_result fl_hist fl_call) (fresh fl_call) = false.
-Proof. repeat split; vm_compute; reflexivity. Qed.
-
-(* a valid file of a too small shape: raises, and keeps raising after removal *)
-Definition k42i : fkey := {| fk_rmax := 4; fk_order := 2; fk_odd := false; fk_inv := true |}.
-Definition ws_call (l : list fkey) : op :=
-  Call {| c_pid := 1; c_wid := 0; c_wver := 0; c_fail := 0; c_rmax := 4; c_vid := 1; c_order := 2;
-          c_odd := false; c_fwd := false; c_reg := 0; c_geom := None; c_bd := BPath 1; c_listing := l |}.
-Definition ws_hist : list op := [Seed 1 k42i FShape; ws_call [k42i]; Remove 1 k42i].
-Theorem wrong_shape_sticks :
-  0 <? res_code (last_result ws_hist (ws_call [])) = true /\ res_code (fresh (ws_call [])) = 0.
+Example failed_load_harmless :
+  res_code (last_result [Call oddcall; Seed 1 k44i (FBad PEOF)] (Call (o4call [k44i]))) = exc_code EEOF /\
+  agrees [Call oddcall; Seed 1 k44i (FBad PEOF); Call (o4call [k44i]); Remove 1 k44i] (Call (o4call [])) = true.
 Proof. split; vm_compute; reflexivity. Qed.
 
-(* the ValueError class of damage is repaired by the handler: regenerated and re-saved *)
-Example value_error_damage_repaired :
-  out_eqv (last_result [Seed 1 k42i (FBad PValue)] (ws_call [k42i])) (fresh (ws_call [])) = true.
+(* 7ce4ac5: a valid file of a wrong shape is ignored (regenerated, re-saved) *)
+Definition k42i : fkey := {| fk_rmax := 4; fk_order := 2; fk_odd := false; fk_inv := true |}.
+Example wrong_shape_regenerated :
+  agrees [Seed 1 k42i FShape] (Call (mkcall 1 0 0 0 0 false None (BPath 1))) = true.
 Proof. vm_compute. reflexivity. Qed.
 
-(* _trf / _tri are not keyed by the valid mask: after a transform whose
-   Distributions object has mask #7 (some radii without data), the public
-   accessor called with valid=None (number 1000: no masking) returns the
-   masked matrices; and a direct masked accessor call after
-   cache_cleanup('inverse') leaves masked matrices that the next transform
-   (all radii valid: number 1005) silently uses *)
-Definition acc_call7 : call :=
+(* 2e99c37: transform matrices keyed by the validity mask, also through the
+   public accessor get_bs_cached *)
+Definition call7 : call :=
   {| c_pid := 1; c_wid := 1; c_wver := 100; c_fail := 0; c_rmax := 4; c_vid := 7; c_order := 2; c_odd := false;
      c_fwd := false; c_reg := 0; c_geom := None; c_bd := BNone; c_listing := [] |}.
-Definition acc_get : op := GetBs 4 2 false false 0 1000 BNone [].
-Theorem accessor_mask_refuted :
-  res_code (last_result [Call acc_call7] acc_get) = 0 /\ res_code (fresh acc_get) = 0 /\
-  out_eqv (last_result [Call acc_call7] acc_get) (fresh acc_get) = false.
-Proof. repeat split; vm_compute; reflexivity. Qed.
-
-Definition acc_callok : call :=
-  {| c_pid := 1; c_wid := 0; c_wver := 0; c_fail := 0; c_rmax := 4; c_vid := 1005; c_order := 2; c_odd := false;
-     c_fwd := false; c_reg := 0; c_geom := None; c_bd := BNone; c_listing := [] |}.
-Definition acc_hist : list op := [Call acc_callok; Cleanup CInv; GetBs 4 2 false false 0 7 BNone []].
-Theorem accessor_poisons_transform_refuted :
-  res_code (last_result acc_hist (Call acc_callok)) = 0 /\
-  out_eqv (last_result acc_hist (Call acc_callok)) (fresh (Call acc_callok)) = false.
+Example accessor_keyed_by_mask :
+  agrees [Call call7] (GetBs 4 2 false false 0 1000 BNone []) = true /\
+  agrees [Call (mkcall 1 0 0 0 0 false None BNone); Cleanup CInv; GetBs 4 2 false false 0 7 BNone []]
+         (Call (mkcall 1 0 0 0 0 false None BNone)) = true.
 Proof. split; vm_compute; reflexivity. Qed.
